@@ -13,9 +13,12 @@ import (
 	"mime/multipart"
 	"net/http"
 	"net/url"
+	"os"
 	"path/filepath"
 	"sort"
+	"bufio"
 	"strings"
+	"testing/iotest"
 	"time"
 
 	"github.com/go-openapi/runtime"
@@ -52,6 +55,7 @@ type c11In struct {
 	Media   Bs             `json:"media,omitempty"`
 	Preset  *Bs            `json:"preset,omitempty"`  // Content-Type set by the parameter writer itself
 	Payload string         `json:"payload,omitempty"` // nil | value | reader | readcloser
+	RType   string         `json:"rtype,omitempty"`   // dynamic type of a reader / readcloser payload (c11ReaderTypes, c11ReadCloserTypes); "" = a type with Read (and Close) only
 	Content Bs             `json:"content,omitempty"`
 	Form    []c11Field     `json:"form,omitempty"`
 	Files   []c11FileField `json:"files,omitempty"`
@@ -201,6 +205,93 @@ type c11ReadCloser struct {
 func (r *c11ReadCloser) Read(p []byte) (int, error) { return r.r.Read(p) }
 func (r *c11ReadCloser) Close() error               { r.closed++; return nil }
 
+// ---------- the dynamic type of a reader payload ----------
+// buildHTTP tells *bytes.Buffer apart (the getBody override), net/http tells *bytes.Buffer, *bytes.Reader and
+// *strings.Reader apart (ContentLength, GetBody), io.Copy tells io.WriterTo apart. The bytes sent and the bytes
+// shown to the auth writer must be the same for all of them.
+var c11ReaderTypes = []string{"", "bytes.Buffer", "bytes.Reader", "strings.Reader", "bufio.Reader", "writerto",
+	"onebyte", "dataeof", "halfread-buffer", "multireader", "limited"}
+var c11ReadCloserTypes = []string{"", "os.File", "nopcloser-buffer", "nopcloser-strings", "buffer+close", "writerto+close"}
+
+// the payload is the caller's own *bytes.Buffer
+func c11IsBufferType(in c11In) bool {
+	return in.Payload == "reader" && (in.RType == "bytes.Buffer" || in.RType == "halfread-buffer")
+}
+
+// Read and WriteTo, nothing else
+type c11WriterTo struct{ r *strings.Reader }
+
+func (w *c11WriterTo) Read(p []byte) (int, error)         { return w.r.Read(p) }
+func (w *c11WriterTo) WriteTo(d io.Writer) (int64, error) { return w.r.WriteTo(d) }
+
+type c11WriterToCloser struct {
+	c11WriterTo
+	closed int
+}
+
+func (w *c11WriterToCloser) Close() error { w.closed++; return nil }
+
+// a struct around a *bytes.Buffer with a Close method: Read, WriteTo, Close - but not a *bytes.Buffer
+type c11BufCloser struct {
+	*bytes.Buffer
+	closed int
+}
+
+func (b *c11BufCloser) Close() error { b.closed++; return nil }
+
+// c11MakePayload builds the body parameter of a reader / readcloser payload with the requested dynamic type
+func c11MakePayload(in c11In) (payload any, cleanup func()) {
+	content := string(in.Content)
+	cleanup = func() {}
+	if in.Payload == "reader" {
+		switch in.RType {
+		case "bytes.Buffer":
+			return bytes.NewBufferString(content), cleanup
+		case "halfread-buffer": // a buffer the caller has already read from: what is left is the content
+			b := bytes.NewBufferString("skip" + content)
+			_, _ = b.Read(make([]byte, 4))
+			return b, cleanup
+		case "bytes.Reader":
+			return bytes.NewReader([]byte(content)), cleanup
+		case "strings.Reader":
+			return strings.NewReader(content), cleanup
+		case "bufio.Reader":
+			return bufio.NewReaderSize(&c11Reader{strings.NewReader(content)}, 16), cleanup
+		case "writerto":
+			return &c11WriterTo{strings.NewReader(content)}, cleanup
+		case "onebyte":
+			return iotest.OneByteReader(strings.NewReader(content)), cleanup
+		case "dataeof": // the last bytes come together with io.EOF
+			return iotest.DataErrReader(&c11Reader{strings.NewReader(content)}), cleanup
+		case "multireader":
+			h := len(content) / 2
+			return io.MultiReader(strings.NewReader(content[:h]), bytes.NewBufferString(content[h:])), cleanup
+		case "limited":
+			return io.LimitReader(strings.NewReader(content+"beyond the limit"), int64(len(content))), cleanup
+		}
+		return &c11Reader{strings.NewReader(content)}, cleanup
+	}
+	switch in.RType {
+	case "os.File":
+		f, err := os.CreateTemp("", "verif-c11-*")
+		if err == nil {
+			name := f.Name()
+			_, _ = f.WriteString(content)
+			_, _ = f.Seek(0, io.SeekStart)
+			return f, func() { _ = f.Close(); _ = os.Remove(name) }
+		}
+	case "nopcloser-buffer": // io.NopCloser keeps the WriteTo of what it wraps
+		return io.NopCloser(bytes.NewBufferString(content)), cleanup
+	case "nopcloser-strings":
+		return io.NopCloser(strings.NewReader(content)), cleanup
+	case "buffer+close":
+		return &c11BufCloser{Buffer: bytes.NewBufferString(content)}, cleanup
+	case "writerto+close":
+		return &c11WriterToCloser{c11WriterTo: c11WriterTo{strings.NewReader(content)}}, cleanup
+	}
+	return &c11ReadCloser{r: strings.NewReader(content)}, cleanup
+}
+
 var errC11Produce = errors.New("c11: producer refuses")
 
 func c11Producers() map[string]runtime.Producer {
@@ -301,6 +392,12 @@ func (c11) Run(inAny any) any {
 
 	rt := client.New("example.com", "/", []string{"http"})
 	rt.Producers = producers
+	var streamPayload any
+	if in.Payload == "reader" || in.Payload == "readcloser" {
+		var cleanup func()
+		streamPayload, cleanup = c11MakePayload(in)
+		defer cleanup()
+	}
 	writer := runtime.ClientRequestWriterFunc(func(req runtime.ClientRequest, _ strfmt.Registry) error {
 		if in.Preset != nil {
 			_ = req.SetHeaderParam("Content-Type", string(*in.Preset))
@@ -318,10 +415,8 @@ func (c11) Run(inAny any) any {
 		switch in.Payload {
 		case "value":
 			_ = req.SetBodyParam(string(in.Content))
-		case "reader":
-			_ = req.SetBodyParam(&c11Reader{strings.NewReader(string(in.Content))})
-		case "readcloser":
-			_ = req.SetBodyParam(&c11ReadCloser{r: strings.NewReader(string(in.Content))})
+		case "reader", "readcloser":
+			_ = req.SetBodyParam(streamPayload)
 		}
 		return nil
 	})
@@ -509,6 +604,9 @@ func (c11) Coq(inAny any, obsAny any) string {
 		payload = "PValue"
 	case "reader":
 		payload = "(PReader " + coqBytes(string(in.Content)) + ")"
+		if c11IsBufferType(in) {
+			payload = "(PBuffer " + coqBytes(string(in.Content)) + ")"
+		}
 	case "readcloser":
 		payload = "(PReadCloser " + coqBytes(string(in.Content)) + ")"
 	}
@@ -612,6 +710,9 @@ func (c11) Category(inAny any, obsAny any) (string, bool) {
 		outcome = "error"
 	}
 	kind := in.Payload
+	if (kind == "reader" || kind == "readcloser") && in.RType != "" {
+		kind += ":" + in.RType
+	}
 	if len(in.Form) > 0 || len(in.Files) > 0 {
 		mp := len(in.Files) > 0 || string(in.Media) == runtime.MultipartFormMime
 		switch {
@@ -809,6 +910,12 @@ func (c11) Gen(r *rand.Rand, tier string, i int) any {
 		in.Payload = []string{"value", "value", "reader", "readcloser", "nil"}[r.Intn(5)]
 		n := []int{0, 1, 5, 40, 40, 600, 3000}[r.Intn(7)]
 		in.Content = Bs(c11Bytes(r, n, in.Payload != "value" && r.Intn(2) == 0))
+		switch in.Payload {
+		case "reader":
+			in.RType = c11ReaderTypes[r.Intn(len(c11ReaderTypes))]
+		case "readcloser":
+			in.RType = c11ReadCloserTypes[r.Intn(len(c11ReadCloserTypes))]
+		}
 	}
 	if shape >= 4 && shape != 5 {
 		in.Form = c11GenForm(r)
@@ -868,6 +975,26 @@ func (c11) Enumerate(tier string) []any {
 			}
 			out = append(out, c11In{Kind: "body", Method: "POST", Media: Bs(m), Payload: pl, Content: "payload text", Auth: 1,
 				Form: []c11Field{{Name: "k", Values: []Bs{"v 1", "v&2"}}}})
+		}
+	}
+	// every dynamic type of a reader payload x how often the auth writer asks for the body x content length;
+	// once more with a form field next to it (the form wins, the reader must not matter)
+	for _, pl := range []string{"reader", "readcloser"} {
+		types := c11ReaderTypes
+		if pl == "readcloser" {
+			types = c11ReadCloserTypes
+		}
+		for _, rt := range types {
+			for _, auth := range []int{-1, 0, 1, 2, 3} {
+				for _, n := range []int{0, 1, 40, 3000} {
+					out = append(out, c11In{Kind: "body", Method: []string{"POST", "PUT"}[n%2], Media: "application/octet-stream", Payload: pl, RType: rt,
+						Content: Bs(c11Bytes(r, n, n == 40)), Auth: auth})
+				}
+			}
+			out = append(out, c11In{Kind: "body", Method: "POST", Media: "application/x-www-form-urlencoded", Payload: pl, RType: rt, Content: "reader text", Auth: 2,
+				Form: []c11Field{{Name: "k", Values: []Bs{"v"}}}})
+			out = append(out, c11In{Kind: "body", Method: "POST", Media: "multipart/form-data", Payload: pl, RType: rt, Content: "reader text", Auth: 1,
+				Form: []c11Field{{Name: "k", Values: []Bs{"v"}}}})
 		}
 	}
 	// escapeQuotes / filepath.Base on every single byte and on byte pairs with the special ones
